@@ -2245,3 +2245,7 @@ mod tests {
     udp_sender.send_to_all(&rr, &addresses);
   }
 }
+
+#[cfg(rustdds_verif)]
+#[path = "/verif/harness/incrate/access/discovery.rs"]
+mod verif_access;
